@@ -1344,6 +1344,13 @@ impl Exec {
         if self.w.blocks.iter().any(|b| b.invalid.is_some() && self.delivered_set.contains(&b.idx)) {
             self.res.probes.inc("invalid_block_delivered");
         }
+        for b in self.w.blocks.iter() {
+            if let Some(why) = &b.invalid {
+                if self.delivered_set.contains(&b.idx) {
+                    self.res.probes.inc(&format!("mutant_delivered:{}", why.trim_start_matches("structural:")));
+                }
+            }
+        }
         if self.w.blocks.len() > 2 {
             // forks present?
             let mut kids: BTreeMap<usize, usize> = BTreeMap::new();
